@@ -313,6 +313,7 @@ class Sign(Machine):
                     self.num(op["kid"], (op["i"], "k")), "--alg", op["alg"]] + (["--context", ctx] if ctx is not None else []) + [
                     "--sign-script", world.SIGN_SCRIPT, "--kms-script", kms,
                     "--already-signed-action", op["action"]]
+            argv = self.drop_defaults(argv, {"--alg": "eddsa", "--already-signed-action": "error"}, op["i"])
             return host.cli(argv, kind="sign1", faults=faults)
         data = host.read(in_rel)
 
@@ -372,6 +373,17 @@ class Sign(Machine):
             ex["valid_ops"] += 1
         # ---- refusals (C09)
         if expect_refuse:
+            if prop == "C04" and o.ok and not match and not (signed and op["action"] in ("error", "skip")):
+                # C09 says this pairing is refused; if the tool goes ahead anyway, C04 still demands a block whose
+                # signature verifies under the key with the algorithm its header names
+                try:
+                    vo = cose.EnvelopeView(host.read(out_rel))
+                    blocks_o = vo.auth_blocks()
+                    if blocks_o:
+                        vs += check_new_block("C04", op["i"], blocks_o[-1], vo.digest_bstr_content, kinfo["pub"], op["alg"], op["kid"],
+                                              where=f"key of type {kinfo['kind']} accepted for {op['alg']}: ")
+                except (cborr.CborError, IndexError, AttributeError, TypeError) as e:
+                    vs.append(violation("C04", "output-unreadable", op["i"], repr(e)))
             if prop == "C09":
                 if o.ok:
                     why = "already signed with action error" if signed and op["action"] == "error" else \
@@ -538,6 +550,10 @@ class Sign(Machine):
                 exp["break"] = "notenv"
         if named:
             cfg["dependencies"] = named
+        # the order of the members of a JSON object carries no meaning: "dependencies" may come first, "alg" last
+        keys = list(cfg)
+        s.sub("order").shuffle(keys)
+        cfg = {k: cfg[k] for k in keys}
         return cfg, exp
 
     def _signrec(self, host, model, op, faults, prop):
